@@ -66,7 +66,8 @@ def gen_word(rng, ctx):
 def gen_item(rng, ctx, zalloc, with_zid=True, multiline=0.25):
     kind = rng.choice(KINDS)
     prio = rng.choice([None, None, 0, 1, 2, 3, 5, 9]) if kind != "-" else None
-    zid = zalloc.fresh() if with_zid else None
+    has_zid = with_zid if isinstance(with_zid, bool) else (rng.random() < with_zid)
+    zid = zalloc.fresh() if has_zid else None
     mdate = None
     if zid and rng.random() < 0.3:
         d = dt.date(2000 + int(zid[:2]), int(zid[2:4]), int(zid[4:6])) + dt.timedelta(days=rng.randint(0, 400))
@@ -110,6 +111,8 @@ def deco(rng, ctx, p=0.5):
         out.append(f"[[{rng.choice(ctx['pages'])}]]")
     if rng.random() < p * 0.5:
         out.append(rng.choice(["k::sec", "who::ann", "est::3"]))
+    if rng.random() < ctx.get("date_prob", 0.0):
+        out.append(rng.choice(["2024-05-10", "2099-12-31", "2100-01-01", "2150-03-01", "2019-02-28", "2250-07-04"]))
     return out
 
 
@@ -143,10 +146,10 @@ def gen_page(rng, ctx, zalloc, with_zid=True, sections=True):
     return "\n".join(lines) + "\n", blocks
 
 
-def gen_dir(rng, npages=(2, 5), with_zid=True, sections=True):
+def gen_dir(rng, npages=(2, 5), with_zid=True, sections=True, date_prob=0.0):
     names = rng.sample(PAGES, rng.randint(*npages))
     zalloc = ZidAlloc(rng)
-    ctx = {"pages": names + ["nosuch"], "zids": [], "gids": ["g1", "g2", "G3"], "rids": ["r1", "r2"]}
+    ctx = {"pages": names + ["nosuch"], "zids": [], "gids": ["g1", "g2", "G3"], "rids": ["r1", "r2"], "date_prob": date_prob}
     files = {}
     for nm in names:
         txt, blocks = gen_page(rng, ctx, zalloc, with_zid, sections)
